@@ -10,7 +10,8 @@ import travrun, travcmp
 
 def cfgs(ctx):
     if ctx.tier == "quick":
-        return [("Traversal_plan3.cfg", None, None), ("Traversal_elide4.cfg", None, None), ("Traversal_spell3.cfg", None, None)]
+        return [("Traversal_plan3.cfg", None, None), ("Traversal_elide4.cfg", None, None), ("Traversal_spell3.cfg", None, None),
+                ("Traversal_sim.cfg", "num=60", 8)]
     return [("Traversal_plan3.cfg", None, None), ("Traversal_elide5.cfg", None, None), ("Traversal_spell3.cfg", None, None),
             ("Traversal_wide2.cfg", None, None), ("Traversal_narrow3.cfg", None, None), ("Traversal_sim.cfg", "num=4000", 8)]
 
